@@ -74,7 +74,8 @@ KnownFinding0(stmts, clause) ==
 (* with the name of its operand (a), not with the declared name r.                                                     *)
 RECURSIVE ProjOfRef(_)
 ProjOfRef(e) == e.k = "proj" /\ (e.e.k = "ref" \/ ProjOfRef(e.e))
-ProjectionLabel(stmts) == \E i \in Lets(stmts) : ProjOfRef(stmts[i].e)
+\* (the degenerate chain: a plain alias `Signal show = x;` has no combinator of its own - the producer is x's, labelled x)
+ProjectionLabel(stmts) == \E i \in Lets(stmts) : ProjOfRef(stmts[i].e) \/ stmts[i].e.k = "ref"
 
 KnownFinding1(stmts, clause) ==
   IF clause = "C20_label" /\ ProjectionLabel(stmts) THEN "KF-C20-projection-label" ELSE KnownFinding0(stmts, clause)
